@@ -8,7 +8,7 @@ from .common import call
 
 PROP = "C05"
 LEVEL = "exploration"
-CASES = {"quick": 700, "thorough": 35000}
+CASES = {"quick": 700, "thorough": 60000}
 SHARDS = {"quick": 8, "thorough": 16}
 ANCHORS = [
     "api.py:Converter._match_record", "api.py:Converter.add_record", "api.py:Converter._merge",
